@@ -29,6 +29,7 @@ type optSet struct {
 	InitialMmap    int
 	Strict         bool
 	MaxSize        int
+	NoStatistics   bool
 }
 
 func (o optSet) String() string {
@@ -36,12 +37,15 @@ func (o optSet) String() string {
 	if o.MaxSize > 0 {
 		s += fmt.Sprintf(" maxsize=%d", o.MaxSize)
 	}
+	if o.NoStatistics {
+		s += " nostats"
+	}
 	return s
 }
 
 func (o optSet) boltOptions() bolt.Options {
 	return bolt.Options{PageSize: o.PageSize, FreelistType: o.Freelist, NoFreelistSync: o.NoFreelistSync,
-		NoGrowSync: o.NoGrowSync, InitialMmapSize: o.InitialMmap, Timeout: time.Second, MaxSize: o.MaxSize}
+		NoGrowSync: o.NoGrowSync, InitialMmapSize: o.InitialMmap, Timeout: time.Second, MaxSize: o.MaxSize, NoStatistics: o.NoStatistics}
 }
 
 func randOpts(rng *rand.Rand) optSet {
@@ -54,6 +58,7 @@ func randOpts(rng *rand.Rand) optSet {
 	// readers and the writer share one goroutine: a remap with a reader open would deadlock
 	// (documented); keep the initial map large enough for these programs.
 	o.InitialMmap = 64 << 20
+	o.NoStatistics = rng.Intn(5) == 0
 	return o
 }
 
@@ -399,7 +404,7 @@ func checkAPIResult(rep *Report, o optSet, res *apiResult) {
 			if want != "-" {
 				n = len(strings.Split(want, ","))
 			}
-			if st := res.stats[i]; st[0]+st[1] != n {
+			if st := res.stats[i]; !o.NoStatistics && st[0]+st[1] != n {
 				rep.violation("C07", "monitor", "stats-vs-file", fmt.Sprintf("after op %d: Stats FreePageN+PendingPageN = %d but the file lists %d free ids", i, st[0]+st[1], n), replay(i))
 			}
 		}
